@@ -84,6 +84,8 @@ def all_cases(tier):
     yield from _cases_N(tier)
     for shape in SN_SHAPES:
         yield ("SN", shape)
+    for shape in V_SHAPES:
+        yield ("V", shape)
 
 
 # N: the same hierarchies with class paths that are textual prefixes / suffixes of each other (same class name in m7, pk7.m7, pk7.pk7.m7;
@@ -116,6 +118,18 @@ SN_SHAPES = {
     # a base reached THROUGH an inherited member: Inner is declared by A, named as B.Inner
     "base-through-inherited-member": {"sn7a.py": "class A:\n    class Inner:\n        x = 1\nclass B(A):\n    pass\nclass C(B.Inner):\n    pass\nclass D(C, A.Inner):\n    pass\n"},
     "with-mixin": {"sn7a.py": "class C:\n    pass\nclass Mixin:\n    pass\n", "sn7b.py": "from sn7a import C, Mixin\nclass C(Mixin, C):\n    pass\n"},
+}
+
+
+# V: views. Every attribute CPython finds on a class, addressed by PATH through whatever leads to the class (the class itself, an import alias of it, a
+# nested class inherited from a base, a subclass of an imported class): the collection returns a member for `<path of the view>.<name>`, its path is that
+# very path ("under the subclass's own path"), and it ends at the object CPython finds.  Views are followed to depth 3.
+V_SHAPES = {
+    "nested-inherited": {"v7a.py": "class A:\n    class Inner:\n        def x(self): ...\n    def a(self): ...\nclass B(A):\n    class Inner(A.Inner):\n        def y(self): ...\nclass C(B):\n    pass\n"},
+    "through-import-alias": {"v7a.py": "class Base:\n    def greet(self): ...\n    class N:\n        def n(self): ...\nclass Child(Base):\n    def own(self): ...\n",
+                             "v7b.py": "from v7a import Child\nfrom v7a import Child as Kid\nclass Local(Child):\n    def loc(self): ...\n"},
+    "alias-of-alias": {"v7a.py": "class Base:\n    def greet(self): ...\nclass Child(Base):\n    pass\n", "v7b.py": "from v7a import Child\n", "v7c.py": "from v7b import Child as K\nclass L(K):\n    pass\n"},
+    "nested-two-levels": {"v7a.py": "class A:\n    class I:\n        class J:\n            def deep(self): ...\nclass B(A):\n    pass\nclass C(B):\n    class I(B.I):\n        pass\n"},
 }
 
 
@@ -458,6 +472,64 @@ def _run_case(griffe, acc, case):
                     what = "false-cycle" if isinstance(got, str) and "cycle" in got else "raise" if isinstance(got, str) else "order"
                     acc.violation(f"mro/{what}/same-name-as-base/{case[1]}", f"{path}: Griffe {got}, CPython {want}", case, {"files": files})
         acc.case(case, outcome="same-name:" + ("ok" if all(outs) else "differs"), nontrivial=True)
+        acc.observe(outs)
+    elif kind == "V":
+        import importlib
+        import sys
+        import types
+
+        files = V_SHAPES[case[1]]
+        modnames = sorted(f.removesuffix(".py") for f in files)
+        with sandbox.scratch_dir("c07v") as d, sandbox.interpreter_state():
+            sandbox.write_tree(d, files)
+            sys.path.insert(0, d)
+            importlib.invalidate_caches()
+            expect = {}  # view path -> path of the object CPython finds there
+
+            def origin(v):
+                return f"{v.__module__}.{v.__qualname__}"
+
+            def walk(cls, path, depth):
+                for n in dir(cls):
+                    if n.startswith("__"):
+                        continue
+                    v = getattr(cls, n)
+                    if isinstance(v, (types.FunctionType, type)):
+                        expect[f"{path}.{n}"] = origin(v)
+                        if isinstance(v, type) and depth < 3:
+                            walk(v, f"{path}.{n}", depth + 1)
+
+            for mn in modnames:
+                pm = importlib.import_module(mn)
+                for k, v in vars(pm).items():
+                    if isinstance(v, type) and not k.startswith("__"):
+                        expect[f"{mn}.{k}"] = origin(v)
+                        walk(v, f"{mn}.{k}", 1)
+            for k in [k for k in sys.modules if k in modnames]:
+                del sys.modules[k]
+            loader = griffe.GriffeLoader(search_paths=[d], allow_inspection=False)
+            for mn in modnames:
+                loader.load(mn)
+            loader.resolve_aliases(implicit=True)
+            outs = []
+            for path, want in sorted(expect.items()):
+                depth = path.count(".")
+                try:
+                    with sandbox.time_limit(10):
+                        m = loader.modules_collection[path]
+                        got_path = m.path
+                        got_target = m.final_target.path if m.is_alias else m.path
+                except Exception as e:  # noqa: BLE001
+                    acc.violation(f"views/lookup-{type(e).__name__}/{case[1]}", f"collection[{path!r}] raised {e!r}; CPython finds {want}", case, {"files": files}, size=depth)
+                    outs.append("raise")
+                    continue
+                ok = got_path == path and got_target == want
+                outs.append(ok)
+                if got_path != path:
+                    acc.violation(f"views/path/{case[1]}", f"collection[{path!r}] is presented under the path {got_path!r}", case, {"files": files}, size=depth)
+                if got_target != want:
+                    acc.violation(f"views/target/{case[1]}", f"collection[{path!r}] ends at {got_target}, CPython finds {want}", case, {"files": files}, size=depth)
+        acc.case(case, outcome="views:" + ("ok" if all(o is True for o in outs) else "differs"), nontrivial=True)
         acc.observe(outs)
     elif kind == "Y":
         mod = _load_single(griffe, _source(h))
